@@ -137,7 +137,7 @@ def W(*ops):
 def check_C01(cx):
     cx.build()
     quick = cx.tier == "quick"
-    inv = ["TypeOK", "C01_Prefix", "C01_NoDup", "C01_ErrNoBytes", "C01_RealTime"]
+    inv = ["TypeOK", "C01_Prefix", "C01_NoDup", "C01_ErrNoBytes", "C01_RealTime", "C09_OneTransportWriter"]
     # exhaustive model checking: all interleavings of the writers with the sender incarnations
     mcs = [
         ("async-q1-block", cfg({"W1": W("W1", "Wv"), "W2": W("CW1")}, qsize=1, until=True)),
@@ -175,12 +175,31 @@ def check_C01(cx):
         ("r3q3nb", cfg({"W1": W("W1", "Wv", "CW1"), "W2": W("Wv", "W1", "W1"), "W3": W("CWv", "CW1")}, qsize=3, until=False)),
         ("r3sync", cfg({"W1": W("W1", "Wv"), "W2": W("Wv", "CW1"), "W3": W("CWv", "WW")}, qsize=0)),
         ("r5q8", cfg({"W%d" % i: W("W1", "Wv", "CW1") for i in range(1, 6)}, qsize=8, until=True)),
+        # contexts that are already done when the call is made (the select may take either ready case: whichever it
+        # takes, a call that returns the context's error must not have queued its payload) and contexts that end meanwhile
+        ("r4q2dead", cfg({"W1": W("CW1:dead", "W1", "CWv:dead"), "W2": W("Wv", "CW1:dead"), "W3": W("CWv:dead", "CW1:mortal"), "W4": W("W1", "CW1:dead")}, qsize=2, until=True)),
+        ("r3q4nbdead", cfg({"W1": W("CW1:dead", "CWv:dead", "W1"), "W2": W("CWv:dead", "Wv"), "W3": W("CW1:dead", "CW1:dead")}, qsize=4, until=False)),
     ]
     n = 40 if quick else 400
     for name, c in big:
         random_runs(cx, name, c, n, sizes=NZ_SIZES)
         random_runs(cx, name + "z", c, n // 4, sizes=SIZES, traced=False)
+    stress_runs(cx, 200 if quick else 3000)
     return finish(cx)
+
+
+def stress_runs(cx, n):
+    """Free-running complement (not model-based, like the pool's stress phase): writers call the entry points of one channel
+    truly in parallel and overwrite their buffers after every call; every record must arrive intact, once, in its writer's
+    order. Races inside one scheduler step (check-then-act on a shared field) can only show here."""
+    cases = []
+    for i in range(n):
+        cases.append({"id": "stress%d" % i, "qsize": cx.rnd.choice([0, 1, 2, 8, 64]), "until": True, "writers": cx.rnd.choice([2, 4, 8]),
+                      "ops": cx.rnd.choice([50, 200]), "max_size": cx.rnd.choice([16, 96, 1500, 5000]), "seed": cx.rnd.randrange(1, 1 << 30), "_module": "chanfree"})
+    rs = run_driver(cx.driver, "chanfree", cases, cx.wd, tag="stress", shards=4)
+    cx.absorb(rs, cases)
+    cx.extra_cov["free_running_stress_records"] = cx.extra_cov.get("free_running_stress_records", 0) + sum(r.get("records", 0) for r in rs)
+    log("  stress: %d cases, %d records, t=%.1fs" % (len(rs), sum(r.get("records", 0) for r in rs), time.time() - cx.t0))
 
 
 def prove_inductive(wd, module, init, indinit, indinv, timeout=600):
@@ -262,11 +281,13 @@ def check_C02(cx):
               ("gq2nb", cfg({"W1": W("W1"), "W2": W("CW1")}, qsize=2, until=False)),
               # a writer held inside the evaluation of its select (gated context) while the sender drains and leaves
               ("gq1gated", cfg({"W1": W("W1"), "W2": W("CW1:gated")}, qsize=1, until=True))]
+    # three payloads and a second sender incarnation (a sender started for a packet that was already sent): covered
+    # completely in the thorough tier, sampled in the quick one
+    graphs += [("gq1b", cfg({"W1": W("W1", "CW1"), "W2": W("Wv")}, qsize=1, until=True))]
     if not quick:
-        graphs += [("gq1b", cfg({"W1": W("W1", "CW1"), "W2": W("Wv")}, qsize=1, until=True)),
-                   ("gq2", cfg({"W1": W("W1", "Wv"), "W2": W("CW1")}, qsize=2, until=True))]
+        graphs += [("gq2", cfg({"W1": W("W1", "Wv"), "W2": W("CW1")}, qsize=2, until=True))]
     for name, c in graphs:
-        st = replay_graph(cx, name, c, max_paths=None if not quick else 400)
+        st = replay_graph(cx, name, c, max_paths=None if not quick else (700 if name == "gq1b" else 400))
         log("  replay %s: %s" % (name, st))
     big = [
         ("r4q1", cfg({"W1": W("W1", "Wv"), "W2": W("Wv", "WW"), "W3": W("CW1:gated", "CWv:gated"), "W4": W("W1")}, qsize=1, until=True)),
@@ -326,10 +347,14 @@ def check_C06(cx):
         # (a bounded-wait Close polls with real 100 ms sleeps: the graph of that configuration is sampled, not covered)
         st = replay_graph(cx, name, c, max_paths=300 if quick else (10000 if name == "gq2nb" else None))
         log("  replay %s: %s" % (name, st))
+    # (the error given to Close is whatever the application got hold of: the read loop's io.EOF after a half-close, a
+    # connection reset, a wrapped sentinel ... graceful close does not depend on it)
     big = [
-        ("r3q2c1", cfg({"W1": W("W1", "Wv"), "W2": W("Wv", "WW"), "W3": W("CW1")}, {"C1": "e1"}, qsize=2, until=True)),
-        ("r4q1c2", cfg({"W1": W("W1", "Wv"), "W2": W("Wv"), "W3": W("CW1"), "W4": W("W1")}, {"C1": "e1", "C2": "e2"}, qsize=1, until=True)),
+        ("r3q2c1", cfg({"W1": W("W1", "Wv"), "W2": W("Wv", "WW"), "W3": W("CW1")}, {"C1": "eof"}, qsize=2, until=True)),
+        ("r4q1c2", cfg({"W1": W("W1", "Wv"), "W2": W("Wv"), "W3": W("CW1"), "W4": W("W1")}, {"C1": "neterr", "C2": "e2"}, qsize=1, until=True)),
         ("r3q3nbc1", cfg({"W1": W("W1", "Wv"), "W2": W("Wv", "W1"), "W3": W("CW1")}, {"C1": "nil"}, qsize=3, until=False)),
+        ("r3q2c1u", cfg({"W1": W("W1", "Wv"), "W2": W("Wv", "WW"), "W3": W("CW1")}, {"C1": "ueof"}, qsize=2, until=True)),
+        ("r3q1c1n", cfg({"W1": W("W1", "Wv"), "W2": W("Wv", "W1")}, {"C1": "netclosed"}, qsize=1, until=False)),
     ]
     n = 30 if quick else 300
     for name, c in big:
@@ -339,6 +364,11 @@ def check_C06(cx):
                     ("d6q3nb", cfg({"W%d" % i: W("Wv") for i in range(1, 7)}, {"C1": "nil"}, qsize=3, until=False)),
                     ("d4q8", cfg({"W%d" % i: W("W1", "CW1", "Wv") for i in range(1, 5)}, {"C1": "e1"}, qsize=8, until=True))]:
         random_runs(cx, name, c, 24 if quick else 200, policies=("drain",), sizes=NZ_SIZES)
+    # a bounded-wait Close that runs out of patience with a stalled sender: it may give up, but not before the
+    # documented grace period (10 polls of 100 ms) is over - measured on the real clock, one-sided
+    for name, c in [("stallnb", cfg({"W1": W("W1", "Wv"), "W2": W("Wv")}, {"C1": "e1"}, qsize=2, until=False)),
+                    ("stallnb1", cfg({"W1": W("W1"), "W2": W("CW1")}, {"C1": "nil"}, qsize=1, until=False))]:
+        random_runs(cx, name, c, 8 if quick else 48, policies=("stall",), sizes=NZ_SIZES)
     # graceful close when the Close comes from a handler inside the read loop
     hc = cfg({"W1": W("W1"), "W2": W("Wv")}, {}, qsize=1, until=True, serve="full", reads=1, readcloses=[1])
     mc_and_replay_cex(cx, "MChandlerclose", hc, inv, what="C06 invariants, Close issued by a handler inside the read loop")
@@ -396,6 +426,8 @@ def check_C11(cx):
             c = cfg({"W1": W(*KINDS)}, {"C1": arg}, qsize=q, until=until)
             sched = [["step", "C1"]] * 12
             cases = [go_case(c, "after-%s-q%d-%d" % (arg, q, i), cx.rnd, schedule=sched, sizes=SMALL_SIZES) for i in range(16 if quick else 64)]
+            # ... and with empty payloads among them (an empty write on a closed channel fails like any other)
+            cases += [go_case(c, "after0-%s-q%d-%d" % (arg, q, i), cx.rnd, schedule=sched, sizes=[7, 0, 0]) for i in range(6 if quick else 24)]
             results = run_driver(cx.driver, "chan", cases, cx.wd, tag="after")
             cx.absorb(results, cases)
             v = validate_traces(cx.wd, "afterT", c, results)
@@ -539,6 +571,12 @@ def check_C05(cx):
                 n, sizes=NZ_SIZES, pcancel_prob=0.15)
     # a bounded-wait Close that gives up on a stalled sender (10 real polls): the late sender failure
     # must not disturb the close sequence of the call that took effect
+    # a peer that does not read (transport writes return only once the transport is closed): Close must still go
+    # through on synchronous channels and, after its grace period, on bounded-wait channels
+    for name, c in [("wedgesync", cfg({"W1": W("W1", "Wv"), "W2": W("Wv", "M")}, {"C1": "e1"}, qsize=0)),
+                    ("wedgesync2", cfg({"W1": W("W1"), "W2": W("MV")}, {"C1": "nil", "C2": "e2"}, qsize=0, serve="full", reads=1)),
+                    ("wedgenb", cfg({"W1": W("W1"), "W2": W("Wv")}, {"C1": "e1"}, qsize=1, until=False))]:
+        random_runs(cx, name, c, (24 if name != "wedgenb" else 8) if quick else 96, policies=("wedge",), sizes=NZ_SIZES)
     for name, c in [("stall1", cfg({"W1": W("W1", "Wv")}, {"C1": "e1"}, qsize=1, until=False, serve="full", reads=1)),
                     ("stall2", cfg({"W1": W("W1"), "W2": W("CW1")}, {"C1": "e1", "C2": "nil"}, qsize=2, until=False))]:
         random_runs(cx, name, c, 16 if quick else 64, policies=("stall",), sizes=NZ_SIZES)
@@ -548,7 +586,7 @@ def check_C05(cx):
 def check_C09(cx):
     cx.build()
     quick = cx.tier == "quick"
-    inv = ["TypeOK", "C09_Contiguous", "C01_NoDup"]
+    inv = ["TypeOK", "C09_Contiguous", "C09_OneTransportWriter", "C01_NoDup"]
     # single-write carriers ([]byte, [][]byte, *bytes.Buffer through Channel.Write): must stay contiguous
     single = [
         ("single-async", cfg({"W1": W("M", "MV"), "W2": W("MB")}, qsize=1, until=True)),
@@ -647,6 +685,7 @@ def check_C10(cx):
     ]
     for name, c in failing:
         random_runs(cx, name, c, n, policies=("stall", "window", "uniform"), sizes=NZ_SIZES)
+    stress_runs(cx, 200 if quick else 3000)
     cx.assume.append("pool scribbling relies on GOMAXPROCS(1) and disabled GC so that a recycled buffer is what the next Get of its class returns")
     return finish(cx)
 
